@@ -514,6 +514,27 @@ fn main() {
         return;
     }
     std::panic::set_hook(Box::new(|_| {}));
+    // watchdog: a case that does not finish within HANG_SECS is reported on stderr ("HANG <id>") and the process exits
+    // with status 3; everything printed for earlier cases has been flushed, the caller re-runs the remaining cases
+    use std::sync::atomic::{AtomicU64, Ordering};
+    static CURRENT: AtomicU64 = AtomicU64::new(u64::MAX);
+    static TICK: AtomicU64 = AtomicU64::new(0);
+    let hang_secs: u64 = std::env::var("MHH_HANG_SECS").ok().and_then(|s| s.parse().ok()).unwrap_or(30);
+    std::thread::spawn(move || {
+        let mut last = (u64::MAX, 0u64);
+        let mut since = std::time::Instant::now();
+        loop {
+            std::thread::sleep(std::time::Duration::from_millis(500));
+            let now = (CURRENT.load(Ordering::SeqCst), TICK.load(Ordering::SeqCst));
+            if now != last {
+                last = now;
+                since = std::time::Instant::now();
+            } else if now.0 != u64::MAX && since.elapsed().as_secs() >= hang_secs {
+                eprintln!("HANG {}", now.0);
+                std::process::exit(3);
+            }
+        }
+    });
     let stdin = std::io::stdin();
     let stdout = std::io::stdout();
     let mut w = std::io::BufWriter::new(stdout.lock());
@@ -523,8 +544,11 @@ fn main() {
             continue;
         }
         let a = tree::parse(&line);
+        CURRENT.store(a.l()[1].n() as u64, Ordering::SeqCst);
+        TICK.fetch_add(1, Ordering::SeqCst);
         let mut out = vec![];
         let r = catch_unwind(AssertUnwindSafe(|| run_case(&a, &mut out)));
+        CURRENT.store(u64::MAX, Ordering::SeqCst);
         for s in &out {
             writeln!(w, "{}", s).unwrap();
         }
@@ -532,6 +556,7 @@ fn main() {
             let l = a.l();
             writeln!(w, "panic {} RUST-PANIC domain={}", l[1].n(), l[0].n()).unwrap();
         }
+        w.flush().unwrap();
     }
     w.flush().unwrap();
 }
